@@ -62,6 +62,7 @@ static void write_file_raw(const char *path, const char *txt) {
     int fd = open(path, O_WRONLY | O_CREAT | O_TRUNC, 0644); if (fd < 0) return;
     size_t n = strlen(txt); ssize_t k = write(fd, txt, n); (void)k; close(fd);
 }
+static std::string g_partial;            // final JSON line to print if the process dies inside the current entry
 static volatile sig_atomic_t g_dying = 0;
 static void on_death() {
     if (g_dying) return; g_dying = 1;
@@ -69,8 +70,8 @@ static void on_death() {
         char path[4096];
         snprintf(path, sizeof path, "%s%s", g_failfile, g_failfile_taken ? ".crash" : "");
         write_file_raw(path, g_pending);
-        const char *m = "\n{\"aborted\":true,\"note\":\"process died (sanitizer report / assert / signal) inside a kernel call; the case is in the fail file\"}\n";
-        ssize_t k = write(1, m, strlen(m)); (void)k;
+        fflush(stdout);
+        ssize_t k = write(1, "\n", 1); k = write(1, g_partial.c_str(), g_partial.size()); k = write(1, "\n", 1); (void)k;
     }
 }
 static std::string tape_txt(const Entry &e, const char *variant, const std::vector<long long> &tape) {
@@ -87,6 +88,9 @@ static void pre_call(Run &r, int vi) {
     std::string what = std::string("process died (sanitizer report / assert / signal) inside ") + (vi < 0 ? r.e->cref : vn) + " called for " + r.e->ptr;
     std::string l = fail_line(std::string(r.e->cref) + "|" + (vi < 0 ? "c-reference-crash" : vn), what, tape_txt(*r.e, vn, r.s->tape));
     snprintf(g_pending, sizeof g_pending, "%s", l.c_str());
+    // plumbing self-test: C07_SELFTEST_CRASH=<regex> makes the first variant call of a matching entry abort()
+    static const char *ct = getenv("C07_SELFTEST_CRASH");
+    if (ct && *ct && vi >= 0 && std::regex_search(std::string(r.e->ptr), std::regex(ct))) abort();
 }
 static void on_signal(int sig) { on_death(); signal(sig, SIG_DFL); raise(sig); }
 
@@ -200,6 +204,25 @@ int main(int argc, char **argv) {
     std::regex re(only.empty() ? ".*" : only);
 
     Stats st; std::vector<std::string> failures, unlinked, unsupported, ran; size_t in_shard = 0, skipped_novariant = 0;
+    auto map_json = [](const std::map<std::string, long> &m) { std::string s = "{"; bool f = true; for (auto &kv : m) { s += (f ? "\"" : ",\"") + jesc(kv.first) + "\":" + std::to_string(kv.second); f = false; } return s + "}"; };
+    auto summary = [&](const char *aborted_in) {
+        std::string out = "{\"cases\":" + std::to_string(st.cases) + ",\"nontrivial\":" + std::to_string(st.nontrivial);
+        if (aborted_in) out += std::string(",\"aborted\":true,\"aborted_in\":\"") + aborted_in + "\",\"note\":\"process died (sanitizer report / assert / signal) inside a kernel call of this entry; the case is in <failfile> (or <failfile>.crash if a property failure already owns <failfile>)\"";
+        out += ",\"entries_total\":" + std::to_string(c07_entries_total) + ",\"entries_with_simd\":" + std::to_string(with_simd) + ",\"entries_covered\":" + std::to_string(T.size());
+        out += ",\"entries_run\":" + std::to_string(ran.size()) + ",\"entries_without_runnable_variant\":" + std::to_string(skipped_novariant);
+        out += ",\"c_only\":" + std::to_string(c_only.size());
+        out += ",\"per_isa\":{\"variants\":" + map_json(st.per_isa_variants) + ",\"cases\":" + map_json(st.per_isa_calls) + "}";
+        out += ",\"per_family\":{\"entries\":" + map_json(st.per_family_entries) + ",\"cases\":" + map_json(st.per_family_cases) + "}";
+        out += ",\"classes\":" + map_json(st.classes);
+        out += ",\"variants_unlinked\":" + list_json(unlinked) + ",\"variants_unsupported_by_host\":" + list_json(unsupported);
+        out += ",\"undecided\":" + list_json(undecided);
+        out += ",\"failures\":["; for (size_t i = 0; i < failures.size(); i++) out += (i ? "," : "") + failures[i]; out += "]";
+        out += ",\"samples\":["; for (size_t i = 0; i < st.samples.size(); i++) out += (i ? "," : "") + st.samples[i]; out += "]";
+        out += ",\"keys\":[";
+        if (!aborted_in) { size_t i = 0; for (uint64_t k : st.keys) { char b[32]; snprintf(b, sizeof b, "%s\"%llx\"", i ? "," : "", (unsigned long long)k); out += b; i++; } }
+        out += "]}";
+        return out;
+    };
     for (size_t ei = 0; ei < T.size(); ei++) {
         const Entry &e = T[ei];
         if (!only.empty() && !std::regex_search(std::string(e.ptr), re) && !std::regex_search(std::string(e.cref), re)) continue;
@@ -209,6 +232,7 @@ int main(int argc, char **argv) {
         for (int vi : act) st.per_isa_variants[e.vars[vi].isa]++;
         st.per_family_entries[e.family]++;
         params.seed = base_seed ^ fnv(e.ptr);
+        g_partial = summary(e.ptr);      // printed by the death callback if a kernel of this entry kills the process
         std::string last_fail_line, last_key; long cases_before = st.cases;
         rc::detail::TestMetadata md; md.id = e.ptr; md.description = e.ptr;
         auto result = rc::detail::checkTestable([&] {
@@ -243,19 +267,7 @@ int main(int argc, char **argv) {
         ran.push_back(e.ptr);
     }
 
-    auto map_json = [](const std::map<std::string, long> &m) { std::string s = "{"; bool f = true; for (auto &kv : m) { s += (f ? "\"" : ",\"") + jesc(kv.first) + "\":" + std::to_string(kv.second); f = false; } return s + "}"; };
-    std::string out = "{\"cases\":" + std::to_string(st.cases) + ",\"nontrivial\":" + std::to_string(st.nontrivial);
-    out += ",\"entries_total\":" + std::to_string(c07_entries_total) + ",\"entries_with_simd\":" + std::to_string(with_simd) + ",\"entries_covered\":" + std::to_string(T.size());
-    out += ",\"entries_run\":" + std::to_string(ran.size()) + ",\"entries_without_runnable_variant\":" + std::to_string(skipped_novariant);
-    out += ",\"c_only\":" + std::to_string(c_only.size());
-    out += ",\"per_isa\":{\"variants\":" + map_json(st.per_isa_variants) + ",\"cases\":" + map_json(st.per_isa_calls) + "}";
-    out += ",\"per_family\":{\"entries\":" + map_json(st.per_family_entries) + ",\"cases\":" + map_json(st.per_family_cases) + "}";
-    out += ",\"classes\":" + map_json(st.classes);
-    out += ",\"variants_unlinked\":" + list_json(unlinked) + ",\"variants_unsupported_by_host\":" + list_json(unsupported);
-    out += ",\"undecided\":" + list_json(undecided);
-    out += ",\"failures\":["; for (size_t i = 0; i < failures.size(); i++) out += (i ? "," : "") + failures[i]; out += "]";
-    out += ",\"samples\":["; for (size_t i = 0; i < st.samples.size(); i++) out += (i ? "," : "") + st.samples[i]; out += "]";
-    out += ",\"keys\":["; { size_t i = 0; for (uint64_t k : st.keys) { char b[32]; snprintf(b, sizeof b, "%s\"%llx\"", i ? "," : "", (unsigned long long)k); out += b; i++; } } out += "]}";
+    std::string out = summary(nullptr);
     printf("%s\n", out.c_str());
     return failures.empty() ? 0 : 1;
 }
